@@ -211,7 +211,7 @@ var interestingStrings = []string{"", "a", "b", "foo", "bar", "baz", "abc", "1",
 	"new\nline", "\x00nul", "\xff\xfe", "tab\t", "~0~1", "A", "Key", "0x10", "1e3", "Inf", "NaN", " ", "<invalid Value>",
 	// strings that begin like a JSON pointer but are not one under the grammar's segment class (a widened class, or an
 	// error production on the way, would change how their double-quoted spelling is read)
-	"/@scope/pkg", "/$defs/x", "/a b", "/tmp/my file", "/x/y?z", "/a#b", "/a=b", "/a,b", "/a+b", "/a%20b", "/a/*", "/a\\b", "/é/ü", "/a//b", "/", "//", "/a/", "a\\", "C:\\dir\\"}
+	"v1.2", "eth0.100", "rack.7", "a.0.b", "x.010", "k.1.2.3", "/@scope/pkg", "/$defs/x", "/a b", "/tmp/my file", "/x/y?z", "/a#b", "/a=b", "/a,b", "/a+b", "/a%20b", "/a/*", "/a\\b", "/é/ü", "/a//b", "/", "//", "/a/", "a\\", "C:\\dir\\"}
 var interestingKeys = []string{"a", "b", "foo", "bar", "k", "x", "0", "1", "2", "", "A", "X", "co:lon", "a/b", "a.b", "é", "~", "key with space", "true", "1.5", "-1"}
 
 func (g *Gen) pickInt(bits int) int64 {
